@@ -20,6 +20,8 @@ func c05Chain(which int, v uint32) filter.Chain {
 		return filter.Chain{filter.NewFilter("lp", []*filter.Term{filter.NewTerm("t", nil, []actions.Action{actions.NewSetLocalPrefAction(v), actions.NewAcceptAction()})})}
 	case 2:
 		return filter.Chain{filter.NewFilter("med", []*filter.Term{filter.NewTerm("t", nil, []actions.Action{actions.NewSetMEDAction(v), actions.NewAcceptAction()})})}
+	case 4:
+		return filter.Chain{filter.NewFilter("prepend", []*filter.Term{filter.NewTerm("t", nil, []actions.Action{actions.NewASPathPrependAction(65009, 1), actions.NewAcceptAction()})})}
 	case 3: // accept only the /8, reject the rest
 		p8 := bnet.NewPfx(bnet.IPv4(0x0a000000), 8).Ptr()
 		return filter.Chain{filter.NewFilter("only8", []*filter.Term{
@@ -31,6 +33,7 @@ func c05Chain(which int, v uint32) filter.Chain {
 
 type c05Ann struct {
 	present bool
+	hidden  bool // the announcement is ineligible (AS loop): it replaces the previous one and contributes nothing
 	med, lp uint32
 	pathID  uint32
 }
@@ -49,6 +52,7 @@ func VC05_History() {
 	addPathRX := vParam("addpath") == 1
 	pv := uint32(200 + ndU8()&1)
 	v := vrf.NewUntrackedVRF("master", 0)
+	v.AddContributingASN(65000)
 	sa := routingtable.SessionAttrs{RouterID: 1, PeerIP: bnet.IPv4(0x0a000901).Ptr(), LocalIP: bnet.IPv4(0x0a000902).Ptr(), Type: route.BGPPathType, LocalASN: 65000, PeerASN: 65101, AddPathRX: addPathRX}
 	ari := New(c05Chain(policy, pv), v, sa)
 	rib := locRIB.New("inet.0")
@@ -68,7 +72,12 @@ func VC05_History() {
 		switch vChoice(4) {
 		case 0: // announce (replaces the previous announcement for the prefix / path id)
 			p := c05Path(uint32(slot))
-			model[pi][slot] = c05Ann{present: true, med: p.BGPPath.BGPPathA.MED, lp: p.BGPPath.BGPPathA.LocalPref, pathID: uint32(slot)}
+			loop := ndBool()
+			if loop { // the neighbour sends a path that already contains our AS
+				p.BGPPath.ASPath = types.NewASPath([]uint32{65101, 65000})
+				p.BGPPath.ASPathLen = 2
+			}
+			model[pi][slot] = c05Ann{present: true, hidden: loop, med: p.BGPPath.BGPPathA.MED, lp: p.BGPPath.BGPPathA.LocalPref, pathID: uint32(slot)}
 			ari.AddPath(pfxs[pi], p)
 		case 1: // withdraw
 			ari.RemovePath(pfxs[pi], c05Path(uint32(slot)))
@@ -92,7 +101,7 @@ func VC05_History() {
 		for i := range pfxs {
 			want := 0
 			for s := 0; s < 2; s++ {
-				if registered && model[i][s].present && !(policy == 3 && i == 1) {
+				if registered && model[i][s].present && !model[i][s].hidden && !(policy == 3 && i == 1) {
 					want++
 				}
 			}
@@ -110,7 +119,7 @@ func VC05_History() {
 				if !addPathRX {
 					s = 0
 				}
-				if s > 1 || !model[i][s].present {
+				if s > 1 || !model[i][s].present || model[i][s].hidden {
 					vAssert(false, "C05.unexpected.path")
 					continue
 				}
@@ -123,6 +132,11 @@ func VC05_History() {
 				}
 				vAssert(p.BGPPath.BGPPathA.LocalPref == wlp, "C05.localpref")
 				vAssert(p.BGPPath.BGPPathA.MED == wmed, "C05.med")
+				wlen := uint16(1)
+				if policy == 4 {
+					wlen = 2 // prepended exactly once, however often the policy has been evaluated
+				}
+				vAssert(p.BGPPath.ASPathLen == wlen, "C05.aspathlen")
 			}
 		}
 	}
